@@ -7,8 +7,13 @@ theorem fp_false_of_depth {r : Rec} (h : r.depth = 0) : r.fp = false := by unfol
 theorem fp_false_of_expried {r : Rec} (h : r.expried = false) : r.fp = false := by unfold Rec.fp; simp [h]
 theorem fp_false_of_noack {r : Rec} (h : r.ack = NOACK) : r.fp = false := by unfold Rec.fp Rec.pending; simp [h]
 
-theorem AtK.finishN {db : DB} {hid : Nat} {r : Rec} (h : AtK db hid r) (hr : KR r) (hf : r.fp = false) : InvK db :=
-  h.finish hr (by intro hh; rw [hf] at hh; exact absurd hh (by decide)) (by intro _ _ _ hh; rw [hf] at hh; exact absurd hh (by decide))
+theorem AtK.finishN {db : DB} {hid : Nat} {r : Rec} (h : AtK db hid r) (hr : KR r) (hf : r.fp = false)
+    (hj : jc db hid > 0 → r.depth = 0 ∨ r.pending = true) : InvK db :=
+  h.finish hr (by intro hh; rw [hf] at hh; exact absurd hh (by decide)) (by intro _ _ _ hh; rw [hf] at hh; exact absurd hh (by decide)) hj
+
+/-- the followed record is no hold (any more) -/
+theorem AtK.finishD {db : DB} {hid : Nat} {r : Rec} (h : AtK db hid r) (hr : KR r) (hd : r.depth = 0) : InvK db :=
+  h.finishN hr (by unfold Rec.fp; simp [hd]) (fun _ => Or.inl hd)
 
 /-! ### building blocks: what they do to the followed record, the table and the journal -/
 
@@ -110,6 +115,6 @@ theorem KR_dead' {r : Rec} (h1 : r.depth = 0) (h2 : r.ack = NOACK) : KR r := by
 /-- the record stops being a hold: nothing is asked of it any more -/
 theorem InvK.rollback {db : DB} (ha : InvA db) (hk : InvK db) (hid : Nat) {r : Rec} (e : findR db.recs hid = some r) : InvK (db.rollback hid) := by
   obtain ⟨r', h', e1, e2⟩ := (AtK.start ha hk e).rollback
-  exact h'.finishN (KR_dead' e1 e2) (fp_false_of_depth e1)
+  exact h'.finishD (KR_dead' e1 e2) e1
 
 end Slock.Ack
